@@ -107,6 +107,20 @@ func certWith(r *Rng, ku x509.KeyUsage, ekus []x509.ExtKeyUsage, dns []string, i
 	return der
 }
 
+func c04UTCTimes() []byte {
+	var body []byte
+	for _, yy := range []string{"24", "49", "50", "55", "68", "69", "99", "00"} {
+		for _, md := range []string{"0101003000", "0701120000", "1231233000", "0331013000"} {
+			for _, z := range []string{"Z", "+0100", "+0200", "-0800", "-0700", "+1400", "+0545", "-1000", "+0530"} {
+				v := yy + md + z
+				body = append(body, 0x17, byte(len(v)))
+				body = append(body, v...)
+			}
+		}
+	}
+	return append([]byte{0x30, 0x82, byte(len(body) >> 8), byte(len(body))}, body...)
+}
+
 func genC04(c *Ctx) {
 	reps, cliReps := 100, 2
 	if c.Thorough() {
@@ -137,6 +151,10 @@ func genC04(c *Ctx) {
 		// generic ASN.1 dump with UTCTime values just before midnight UTC, one with a zone offset
 		{"asn1-utctime", "t.der", []byte{0x30, 0x20, 0x17, 0x0d, '2', '4', '0', '3', '0', '1', '2', '3', '3', '0', '0', '0', 'Z',
 			0x17, 0x0f, '2', '4', '0', '3', '0', '1', '2', '3', '3', '0', '+', '0', '1', '0', '0'}},
+		// UTCTime values whose zone offset is one in use in the time zones the runs are made under, with
+		// two-digit years on both sides of the 1950/2050 and 1969 pivots, in summer and in winter
+		// (encoding/asn1 moves 20xx to 19xx on a local-zone value when the offset matches TZ: fixed as C04-utc)
+		{"asn1-utctime-zones", "tz.der", c04UTCTimes()},
 		{"jwt-numeric-dates", "n.jwt", jwtWith(map[string]any{"exp": 1709335800, "nbf": 1709335800.5, "iat": 1}, map[string]any{"alg": "none"})},
 		{"ppk", "k.ppk", fixture("putty/ecdsa-enc-argon2i.ppk")},
 	}
@@ -156,9 +174,9 @@ func genC04(c *Ctx) {
 	}
 	dir := filepath.Join(c.Tmp, "c04")
 	os.MkdirAll(dir, 0o755)
-	tzs := []string{"UTC", "Pacific/Kiritimati", "America/Los_Angeles", "Asia/Kathmandu"}
+	tzs := []string{"UTC", "Pacific/Kiritimati", "America/Los_Angeles", "Asia/Kathmandu", "Europe/Berlin"}
 	if _, err := time.LoadLocation("Pacific/Kiritimati"); err != nil {
-		tzs = []string{"UTC", "<+14>-14", "<-08>8", "<+0545>-5:45"}
+		tzs = []string{"UTC", "<+14>-14", "<-08>8", "<+0545>-5:45", "CET-1CEST,M3.5.0,M10.5.0/3"}
 		fmt.Fprintln(os.Stderr, "NOTE tz database absent: using fixed-offset TZ strings")
 	}
 	langs := []string{"C", "en_US.UTF-8", "tr_TR.UTF-8"}
